@@ -39,6 +39,7 @@ import (
 	str "github.com/echovault/sugardb/internal/modules/string"
 	"github.com/echovault/sugardb/internal/raft"
 	"github.com/echovault/sugardb/internal/snapshot"
+	"github.com/tidwall/resp"
 	"io"
 	"log"
 	"net"
@@ -508,10 +509,15 @@ func (server *SugarDB) handleConnection(conn net.Conn) {
 		}
 	}()
 
-	for {
-		message, err := internal.ReadMessage(r)
+	// One RESP reader per connection. It decodes one complete value at a time and keeps the bytes that
+	// follow it, so commands pipelined in one write, split across several writes or longer than one
+	// read are each handled exactly once.
+	reader := resp.NewReader(r)
 
-		if err != nil && errors.Is(err, io.EOF) {
+	for {
+		value, _, err := reader.ReadValue()
+
+		if err != nil && (errors.Is(err, io.EOF) || errors.Is(err, io.ErrUnexpectedEOF)) {
 			// Connection closed
 			log.Println(err)
 			break
@@ -519,6 +525,17 @@ func (server *SugarDB) handleConnection(conn net.Conn) {
 
 		if err != nil {
 			log.Println(err)
+			var netErr net.Error
+			if !errors.As(err, &netErr) {
+				// Malformed frame: the stream cannot be resynchronised, report and close.
+				_, _ = w.Write([]byte(fmt.Sprintf("-Error %s\r\n", err.Error())))
+			}
+			break
+		}
+
+		message, err := value.MarshalRESP()
+		if err != nil {
+			_, _ = w.Write([]byte(fmt.Sprintf("-Error %s\r\n", err.Error())))
 			break
 		}
 
